@@ -30,6 +30,7 @@ DEFAULT_PROFILE = {
   "cyclic_formula": 0,
   "side_effect_formula": 0,
   "remove_readd": 2,
+  "add_empty_column": 2,
   "stale_undo": 1,
 }
 
@@ -74,10 +75,11 @@ class World(object):
             and not c["colId"].startswith("#")]
 
   def data_cols(self, t):
-    return [c for c in self.visible_cols(t) if not c["isFormula"]]
+    # "empty" columns (isFormula with an empty formula) accept data: the engine converts them
+    return [c for c in self.visible_cols(t) if not c["isFormula"] or not c["formula"]]
 
   def formula_cols(self, t):
-    return [c for c in self.visible_cols(t) if c["isFormula"]]
+    return [c for c in self.visible_cols(t) if c["isFormula"] and c["formula"]]
 
 
 def wchoice(rng, weights):
@@ -214,6 +216,33 @@ class Gen(object):
         sn = [c for c in w.visible_cols(src[0]) if c["type"] in ("Int", "Numeric")]
         if sn:
           opts += ["SUM($group.%s)" % rng.choice(sn)["colId"]]
+    # chains through FORMULA columns: lookups keyed on formula columns, aggregates of formula
+    # columns over non-ascending record sets (RefList order, order_by='-col')
+    fcols_here = [c for c in cols if c["isFormula"] and c["formula"] and c["colId"] != "group"]
+    for t2 in w.user_tables():
+      c2 = [c for c in w.visible_cols(t2) if not (t2 is t and c["colId"] == avoid) and c["colId"] != "group"]
+      f2 = [c for c in c2 if c["isFormula"] and c["formula"]]
+      if cols and c2 and f2:
+        a, k, v = rng.choice(cols)["colId"], rng.choice(f2)["colId"], rng.choice(c2)["colId"]
+        opts += ["%s.lookupOne(%s=$%s).%s" % (t2["tableId"], k, a, v),
+                 "len(%s.lookupRecords(%s=$%s))" % (t2["tableId"], k, a)]
+      if cols and c2 and f2:
+        a, k, v, o = rng.choice(cols)["colId"], rng.choice(c2)["colId"], rng.choice(f2)["colId"], rng.choice(c2)["colId"]
+        opts += ["sum((r.%s if isinstance(r.%s, (int, float)) else 0) for r in %s.lookupRecords(%s=$%s, order_by='-%s'))"
+                 % (v, v, t2["tableId"], k, a, o)]
+    for r in reflists:
+      tgt = w.tables.get(r["type"].split(":", 1)[1])
+      if tgt:
+        tf = [c for c in w.visible_cols(tgt) if c["isFormula"] and c["formula"] and not (tgt is t and c["colId"] == avoid)]
+        if tf:
+          v = rng.choice(tf)["colId"]
+          opts += ["sum((x.%s if isinstance(x.%s, (int, float)) else 0) for x in $%s)" % (v, v, r["colId"])] * 2
+    for r in refs:
+      tgt = w.tables.get(r["type"].split(":", 1)[1])
+      if tgt:
+        tf = [c for c in w.visible_cols(tgt) if c["isFormula"] and c["formula"] and not (tgt is t and c["colId"] == avoid)]
+        if tf:
+          opts += ["$%s.%s" % (r["colId"], rng.choice(tf)["colId"])]
     opts += ["$id * 3", "1 + 1", "'k'", "None"]
     if rng.random() < 0.04:
       opts = ["$nosuchcol + 1", "1/0", "foo(", "import os"]      # invalid / erroring formulas
@@ -339,6 +368,17 @@ class Gen(object):
       return None
     typ = self.rng.choice(TYPES_DATA)
     return ["AddColumn", t["tableId"], self.new_name(), {"type": typ, "isFormula": False}]
+
+  def g_add_empty_column(self, w):
+    """An 'empty' column (formula column with empty formula), possibly already typed: the first data
+    entered converts it to a data column."""
+    t = self._table(w)
+    if not t:
+      return None
+    info = {}
+    if self.rng.random() < 0.6:
+      info["type"] = self.rng.choice(["Text", "Numeric", "Int", "Date", "Choice", "Any"])
+    return ["AddColumn", t["tableId"], self.new_name(), info]
 
   def g_add_ref_column(self, w):
     t = self._table(w)
